@@ -7,7 +7,8 @@ Dns64Layout.tla : RFC 6052 position map as a function on octet sequences; TLC ch
                   the PTR round trip), plus position-distinguishing patterns and seeded
                   random pairs.
 Dns64Decide.tla : the decision table (config x client query x downstream AAAA reply x A
-                  lookup answer -> outcome).  TLC checks the C20 invariants on the
+                  lookup answer -> outcome; the request-local rows "shedGlobal"/"shedZone" are
+                  answered by the REAL resolver handler's load-shed branch, not a scripted mark).  TLC checks the C20 invariants on the
                   property-conformant table and dumps the as-built table; every row is
                   replayed through dns64 + scripted downstream/queryer and the predicates of
                   the property statement are evaluated on the real reply.
@@ -19,6 +20,7 @@ import json
 import os
 
 import vf
+import x04ds
 
 WORKERS = 6          # TLC workers (the machine is shared)
 GO_WORKERS = 6
@@ -89,6 +91,15 @@ def decide(ctx, thorough):
     spec = "MC_Decide%s.tla" % tier
     # 1. the table the property asks for: every C20 invariant must hold on the model
     ctx.tlc("Dns64", spec, "MC_Decide%s.cfg" % tier, workers=WORKERS, timeout=2400 if thorough else 400, heap="8g")
+    # 1b. (gap C20-r3-1) the request-local rows made by the REAL resolver handler's load-shed branch (marks shedGlobal /
+    #     shedZone, part of every table above and below): a small table around them, and its negative twin -- the mark
+    #     never reaches dns64 -- which must break NeverOverFailure, so the invariant is not vacuous on those rows
+    ctx.tlc("Dns64", "MC_DecideShed.tla", "MC_DecideShed.cfg", workers=4, timeout=300, heap="4g", tag="shed rows")
+    neg = ctx.tlc("Dns64", "MC_DecideShed.tla", "MC_DecideShed_neg.cfg", workers=4, timeout=300, heap="4g", must_pass=False,
+                  count=False, tag="negative twin: shed mark lost (must violate NeverOverFailure)")
+    if neg.violated != "NeverOverFailure":
+        raise vf.MachineryError("negative twin MC_DecideShed_neg.cfg did not violate NeverOverFailure (violated=%s rc=%s)"
+                                % (neg.violated, neg.rc))
     # 2. the table as the code is built (two named deviations switched on); its dump is
     #    replayed.  The structural invariants must hold; NeverAD / TtlMin are then checked on
     #    it separately and are *expected* to fail on the model (not a verdict: the verdict is
@@ -102,6 +113,8 @@ def decide(ctx, thorough):
     for k in ("obs_synth", "obs_pass", "obs_filtered", "obs_fallback", "obs_workfail", "obs_ptr", "obs_rewritten"):
         need(c.get(k, 0) > 0, "decision replay never observed outcome %s (%s)" % (k, c))
     need(c.get("dump_done", 0) > 10000, "decision table has only %s rows" % c.get("dump_done"))
+    for k in ("real_shedGlobal", "real_shedZone", "real_shedGlobal_text_seen", "real_shedZone_text_seen"):
+        need(c.get(k, 0) >= 8, "the real resolver handler's load-shed branch answered only %s rows (%s)" % (c.get(k, 0), k))
     os.remove(dump)
     if thorough:
         rp = ctx.tlc("Dns64", spec, "MC_Decide%s_asbuilt_props.cfg" % tier, workers=WORKERS, timeout=1200, heap="8g",
@@ -131,6 +144,8 @@ def run_replay(ctx, path):
             ctx.seed = obj["seed"]
         res = ctx.go_driver("./c20", "TestDecideReplay", {"cases": [obj["case"]]}, name="replay_decide")
         fold(ctx, res, "replay", "[replay decide] ")
+    elif drv == "c04-d64":
+        x04ds.run_replay(ctx, path)      # DNS64 over the real cache (TtlMin on a cached, aged AAAA NODATA)
     else:
         raise vf.MachineryError("replay file %s has no C20 driver tag" % path)
     ctx.cov["states"] = max(ctx.cov["states"], 1)
@@ -146,7 +161,10 @@ def run(ctx, replay):
                        "all 11 RFC 8914 DNSSEC codes; distinct = distinct (non-random) cases")
     ctx.assumptions += [
         "the rest of the chain and the internal queryer are scripted doubles; provenance marks are set the way cache/"
-        "resolver set them (ResponseMeta.MarkCachedFailureResponse, MarkRequestLocalFailureResponse, a ledger in ctx)",
+        "resolver set them (ResponseMeta.MarkCachedFailureResponse, MarkRequestLocalFailureResponse, a ledger in ctx) -- "
+        "except the load-shed rows (marks shedGlobal / shedZone): there the rest of the chain is the real resolver "
+        "DNSHandler with its resolution slots held / the root zone's in-flight quota used up through an overlay shim, and "
+        "the cached-failure rows of the DNS64-over-cache tier (x04ds), where the real cache makes and marks the reply",
         "a DNSSEC validation failure is observable to dns64 only as SERVFAIL + DNSSEC EDE on an EDNS reply",
         "AAAA negative TTL = min(SOA TTL, SOA MINIMUM) of the SOA in the AAAA reply (RFC 2308); no SOA = no bound",
         "excluded IPv4 under 64:ff9b::/96 is judged on RFC 1918 + 198.18/15 addresses (explicit list and built-in default)",
@@ -156,3 +174,10 @@ def run(ctx, replay):
         return
     layout(ctx, thorough)
     decide(ctx, thorough)
+    # the multi-step form of "TTL no larger than ... the AAAA negative TTL": the NODATA dns64 is handed comes from the
+    # real cache after it has aged (SOA TTL counted down, MINIMUM not), the A RRset from another entry of another age
+    # (Lease64.tla behaviours on [dns64, cache, scripted downstream]; the lifetime model is checked by C04 / X04DS).
+    # Same histories, gap C20-r3-2: "never over a cached failure" with the REAL cache making, keeping, dropping and
+    # marking the RFC 9520 record (Fail64 / Hit64 / HitFail on message-born, byte-path and wire-born requests); the
+    # failure model MC_Lease64_fail.cfg and its negative twin are run here too (x04ds.run_fail_model)
+    x04ds.run_tier(ctx, focus="c20", model=False)
